@@ -25,8 +25,10 @@ func (x *Exec) intrinsic(st *State, fn *ssa.Function, args []Value) ([]Out, bool
 		}
 		return t
 	}
-	if x.opaque[name] {
-		return x.opaqueCall(st, fn, args), true
+	for f := range x.opaque {
+		if name == f || strings.HasSuffix(name, "."+f) || strings.HasSuffix(name, ")."+f) {
+			return x.opaqueCall(st, fn, args), true
+		}
 	}
 	switch name {
 	case "math.Abs":
